@@ -151,9 +151,13 @@ pub fn dump_once_failing(cfg: &mut Configured, pid: i32, fail_at: Option<usize>)
     Ok((image, world, events))
 }
 
-pub fn run_plan(rng: &mut Rng, plan: Plan, work: &str) -> Result<Live, String> {
+pub fn run_plan(rng: &mut Rng, plan: Plan, work: &str) -> Result<Live, String> { run_plan_hist(rng, plan, work, None) }
+/// `fail_first`: before the dump that is judged, the same writer serves a request whose destination fails at that call
+/// (a request that was abandoned half-way must leave nothing behind)
+pub fn run_plan_hist(rng: &mut Rng, plan: Plan, work: &str, fail_first: Option<usize>) -> Result<Live, String> {
     let target = Target::spawn(&plan.scen, work)?;
     let mut cfg = configure(rng, &plan, &target);
+    if let Some(k) = fail_first { let _ = dump_once_failing(&mut cfg, target.pid, Some(k)); target.settle(); }
     let (image, world, events) = dump_once(&mut cfg, target.pid)?;
     Ok(Live { target, world, image, plan, blamed: cfg.blamed, crash: cfg.crash, app: cfg.app, principal: cfg.principal, events })
 }
